@@ -14,6 +14,7 @@ PROP = dict(
             "the timer at 2^31 s (only 'not earlier than 1.01 * min(interval, 2^31 s)' is checked there); KalmanSourceController plumbing between filter and "
             "source (desired_poll_interval is a field read); RATE handling (C09)",
     assumptions=[
+        "pending-request deadline = one reading of the clock +/- a symbolic distance of 1 s .. 2^20 s (in time / expired); distances below 1 s to the boundary are not covered (so that a native replay against the real clock cannot flip)",
         "0 <= min <= max <= 17 (the property's configuration space); filter desire within [min,max] (shown inductive by c10_filter)",
         "poll score strictly inside (-hysteresis, hysteresis) before an update (it is reset to 0 whenever it reaches the band; shown inductive by c10_filter)",
         "+-1 ns slack on the timer window absorbs f64 rounding of mul_f64 (part of the claim)",
@@ -25,6 +26,8 @@ PROP = dict(
         H(NH, "c10", "c10_timer_upgrade", "same, NTPv4 source that is asking for the NTPv5 upgrade", timeout=600),
         H(NH, "c10", "c10_timer_server_requested", "NTPv4 source (the minimum is set through a hook; NTPv5 request path: see outside) with a server-requested minimum 2^18..2^127 s (the range only an NTPv5 server can ask for): exponent = the request, timer not earlier than 1.01 x min(interval, 2^31 s)", timeout=600),
         H(NH, "c10", "c10_filter", "one clock-filter update keeps the desired interval within [min,max] and moves it by at most one step (or back to min); poll score stays inside the hysteresis band", timeout=600),
+        H(NH, "c10", "c10_incoming_v4", "one NTPv4 datagram (48-byte header, all bytes symbolic except byte 0) against a plain NTPv4 source with a request in flight: the server-requested minimum never falls, "
+          "rises by at most one step (RATE kiss) and never beyond the configured maximum (NTPv4 has no field to ask for an interval)", timeout=600),
         H(NH, "c10", "c10_server_req", "NTPv5 response (hdr+draft id, all header bytes symbolic except leap/version/mode/flags): server-requested minimum becomes max(old, requested); never lowered by any datagram", timeout=600),
     ],
 )
